@@ -3,6 +3,7 @@
 package c09
 
 import (
+	"io"
 	"math"
 	"bytes"
 	"encoding/base64"
@@ -66,6 +67,10 @@ type Case struct {
 	Node   *val.V     `json:"node,omitempty"`
 	Pol    pol.Policy `json:"pol,omitempty"`
 	Sel    sel.Sel    `json:"sel,omitempty"`
+	// Fill > 0: the input is Bytes followed by Fill bytes of value FillByte (inputs of tens of MiB are described, not
+	// stored: the case on disk stays small)
+	Fill     int  `json:"fill,omitempty"`
+	FillByte byte `json:"fill_byte,omitempty"`
 }
 
 type target struct {
@@ -235,6 +240,9 @@ var excludedDeclared int
 const hangAfter = 150 * time.Second
 
 func run(c *h.Ctx, cs Case) {
+	if cs.Fill > 0 {
+		cs.Bytes = append(append(make([]byte, 0, len(cs.Bytes)+cs.Fill), cs.Bytes...), bytes.Repeat([]byte{cs.FillByte}, cs.Fill)...)
+	}
 	tg, ok := targets[cs.Target]
 	if !ok {
 		c.Inconclusive("unknown target %q", cs.Target)
@@ -363,7 +371,7 @@ func trimStack(stack string) string {
 
 // ---------- generators ----------
 
-var byteTargets, stringTargets, nodeTargets []string
+var byteTargets, stringTargets, nodeTargets, opaqueTargets []string
 
 var jsonTargets = []string{"token.FromDagJson", "delegation.FromDagJson", "invocation.FromDagJson"}
 
@@ -388,6 +396,13 @@ func init() {
 				jsonTargets = append(jsonTargets, d.Name)
 			} else {
 				byteTargets = append(byteTargets, d.Name)
+			}
+			if d.Stream {
+				// the same entry point fed from a source that is nothing but an io.Reader (a socket, a pipe): no Len,
+				// no Seek, no WriteTo for the decoder to size or shortcut the input with
+				on := d.Name + "/opaque-source"
+				targets[on] = target{"bytes", func(cs Case) { d.F(struct{ io.Reader }{bytes.NewReader(cs.Bytes)}) }, func(cs Case) bool { return reach(cs.Bytes) }}
+				opaqueTargets = append(opaqueTargets, on)
 			}
 		}
 	}
@@ -1568,4 +1583,39 @@ func TestHostileSignatures(t *testing.T) {
 		}
 	}
 	P.Sample(map[string]any{"hostile_signature_cases": n})
+}
+
+
+// TestBigItems: inputs that really ARE tens of MiB long - one byte string or text string of 2^24, 2^25 and 2^25+1 bytes
+// with all of its data present, alone, as first element of a list and in the place of an envelope's signature - through
+// every stream decoder fed from a bare io.Reader and through the buffered ones. (The hostile constants declare such
+// lengths without delivering them; a decoder that is patient only with inputs that keep their promise is met here.)
+// The call returns (watchdog) and allocates no more than the constant plus a multiple of what it was given.
+func TestBigItems(t *testing.T) {
+	sizes := []int{1 << 24, 1 << 25, 1<<25 + 1}
+	if h.Thorough() {
+		sizes = append(sizes, 1<<25-1, 1<<26)
+	}
+	tgs := append(append([]string{}, opaqueTargets...), "token.FromSealedReader", "token.FromSealed", "token.FromDagCbor", "container.FromCborReader", "container.FromCarReader", "container.FromCbor")
+	n := 0
+	for _, size := range sizes {
+		for _, major := range []byte{2, 3} {
+			head := []byte{major<<5 | 26, byte(size >> 24), byte(size >> 16), byte(size >> 8), byte(size)}
+			for _, prefix := range [][]byte{nil, {0x82}, {0x82, 0x58, 0x40}} {
+				pre := append(append([]byte{}, prefix...), head...)
+				if len(prefix) == 3 {
+					pre = append(append(append([]byte{}, prefix...), make([]byte, 64)...), append([]byte{0xa2, 0x61, 'h'}, head...)...)
+				}
+				for _, tg := range tgs {
+					if _, ok := targets[tg]; !ok {
+						continue
+					}
+					fill := byte('a')
+					mutatedProp.One(t, Case{Target: tg, Fam: "big-item", Bytes: pre, Fill: size, FillByte: fill})
+					n++
+				}
+			}
+		}
+	}
+	P.SetExtra("big_item_cases", n)
 }
